@@ -139,6 +139,12 @@ const PATH_TPLS: &[&str] = &[
     "/c/@lang/@language",
     "/i/@id/@idx",
     "/smile:)/@slug",
+    // mixed-case sources sharing prefixes of different lengths (node splits in the tree; they matter when the
+    // configuration ignores case)
+    "/Catalog/Shoes/@id",
+    "/Catalog/Shirts/@id",
+    "/Cart/@id",
+    "/CATALOG/@slug",
 ];
 const QUERIES: &[&str] = &["x=1", "a=1&b=2", "q=test"];
 
@@ -653,6 +659,7 @@ fn gen_case(rng: &mut Rng, prop: &str, mode: &str, tier: Tier) -> W1Case {
     let mut rules: Vec<Value> = Vec::new();
     let nids = (npool * 2 / 3).max(2);
     let ids = id_pool(rng, nids);
+    let cluster = rng.chance(1, 5);
     for k in 0..npool {
         let id = ids[k % nids].clone();
         let mut r = rg.rule(rng, &id, &swarm);
@@ -678,6 +685,27 @@ fn gen_case(rng: &mut Rng, prop: &str, mode: &str, tier: Tier) -> W1Case {
                 }
                 r["stop"] = if rng.chance(1, 4) { json!(true) } else { Value::Null };
                 r["reset"] = if rng.chance(1, 4) { json!(true) } else { Value::Null };
+            }
+        }
+        if cluster && rng.coin() {
+            // a family of mixed-case marker sources with no other trigger: they all live in one path tree, sharing
+            // prefixes of different lengths ("/Ca", "/Catalog/Sh"), so insertion order decides which node splits
+            let path = rng.pick_str(&["/Catalog/Shoes/@id", "/Catalog/Shirts/@id", "/Cart/@id", "/CATALOG/@slug", "/Catalog/Shoes/@id/@slug", "/Care/@slug"]);
+            r["source"] = json!({"scheme": Value::Null, "host": Value::Null, "ips": Value::Null, "path": path, "query": Value::Null, "headers": Value::Null,
+                "methods": Value::Null, "exclude_methods": Value::Null, "response_status_codes": r["source"]["response_status_codes"].clone(),
+                "exclude_response_status_codes": r["source"]["exclude_response_status_codes"].clone(), "sampling": Value::Null});
+            let mut markers = Vec::new();
+            if path.contains("@id") {
+                markers.push(json!({"name": "id", "regex": "[0-9]+"}));
+            }
+            if path.contains("@slug") {
+                markers.push(json!({"name": "slug", "regex": "(?:[a-z]|\\-)+?"}));
+            }
+            r["markers"] = json!(markers);
+            if let Some(t) = r["target"].as_str() {
+                if t.contains('@') {
+                    r["target"] = json!(format!("/t/{id}"));
+                }
             }
         }
         rules.push(r);
